@@ -392,6 +392,15 @@ func (i *interpreter) checkFormat(format value, args []value) {
 	if verbs != len(args) {
 		i.path.violation("assert", fmt.Sprintf("pos: format %q has %d verbs for %d arguments", f, verbs, len(args)), nil, i.stack())
 	}
+	if i.path.ex.opts.bound("witness", 0) > 0 && len(args) >= 2 {
+		// witness mode: every structurally distinct way of quoting two pieces of
+		// code (original, suggestion) is handed to the native suggestion oracle
+		sig := f
+		for _, a := range args {
+			sig += " | " + i.dynTypeName(a)
+		}
+		i.path.violation("assert", "suggest: witness "+sig, nil, "")
+	}
 	for _, a := range args {
 		if bad := i.astIllFormed(a, map[*value]bool{}, 0); bad != "" {
 			i.path.violation("assert", "suggest: a syntax tree quoted in a diagnostic is not well-formed: "+bad, nil, i.stack())
@@ -521,4 +530,23 @@ func (i *interpreter) astChild(key string, ft types.Type, v value, seen map[*val
 		}
 	}
 	return ""
+}
+
+// dynTypeName names the dynamic type of a formatted argument (for witness classes).
+func (i *interpreter) dynTypeName(a value) string {
+	switch x := a.(type) {
+	case *lazyIface:
+		if x.resolved != nil {
+			return i.dynTypeName(*x.resolved)
+		}
+		return "lazy"
+	case iface:
+		if x.t == nil {
+			return "nil"
+		}
+		return x.t.String()
+	case sym:
+		return "sym"
+	}
+	return fmt.Sprintf("%T", a)
 }
